@@ -464,6 +464,32 @@ func (e *mvEnv) round(gapSlots int64) {
 			m.Content = nom.NewMomentumContent(blocks[:len(blocks)-1])
 			e.rehashSign(m, K)
 		})
+		// the FIRST of several blocks one account has in this momentum left out, the later ones kept (hash recomputed, signed
+		// by the elected pillar): the kept block does not extend the account's confirmed chain - also when that account has
+		// no confirmed block at all yet (its chain would start at height 2)
+		seenAddr := map[types.Address]bool{}
+		for i, b := range blocks {
+			if seenAddr[b.Address] {
+				continue
+			}
+			seenAddr[b.Address] = true
+			more := false
+			for _, b2 := range blocks[i+1:] {
+				more = more || b2.Address == b.Address
+			}
+			if !more {
+				continue
+			}
+			bl := append(append([]*nom.AccountBlock(nil), blocks[:i]...), blocks[i+1:]...)
+			lbl := "content-drop-first-of-account+resign"
+			if b.Height == 1 {
+				lbl = "content-drop-first-of-new-account+resign"
+			}
+			addB(lbl, bl, func(m *nom.Momentum) {
+				m.Content = nom.NewMomentumContent(bl)
+				e.rehashSign(m, K)
+			})
+		}
 		if len(v.Content) > 1 {
 			// first and last header exchanged: still a valid momentum iff no account's own blocks change their relative
 			// order (the pillar is free to order blocks of different accounts)
@@ -691,6 +717,8 @@ func init() {
 		if rounds < 3 {
 			rounds = 3
 		}
+		freshUsers := []*wallet.KeyPair{g.User10, g.User9, g.User8, g.User7, g.User6}
+		var freshSends []types.AccountHeader
 		for r := 0; r < rounds; r++ {
 			// content for the next momentum: plain transfers between users (two blocks of one account, one of another)
 			if r%3 == 1 {
@@ -706,6 +734,46 @@ func init() {
 						TokenStandard: types.ZnnTokenStandard, Amount: big.NewInt(2 * g.Zexp)}, nil, mock.SkipVmChanges)
 					z.InsertSendBlock(&nom.AccountBlock{Address: g.User2.Address, ToAddress: g.User3.Address,
 						TokenStandard: types.ZnnTokenStandard, Amount: big.NewInt(3 * g.Zexp)}, nil, mock.SkipVmChanges)
+				}()
+			}
+			// an account that has NO block yet gets two sends (r%6 == 1) and publishes both receives three rounds later: its
+			// chain starts (heights 1 and 2) inside one momentum
+			if r%6 == 1 && len(freshUsers) > 0 {
+				func() {
+					defer func() {
+						if x := recover(); x != nil {
+							c.Hit("fresh-send-failed")
+						}
+					}()
+					fresh := freshUsers[0]
+					freshUsers = freshUsers[1:]
+					freshSends = nil
+					// plasma for the new account first (fused by User1; two momentums of the mock's own producer confirm the
+					// call and let the plasma contract receive it)
+					z.InsertSendBlock(&nom.AccountBlock{Address: g.User1.Address, ToAddress: types.PlasmaContract,
+						Data:          definition.ABIPlasma.PackMethodPanic(definition.FuseMethodName, fresh.Address),
+						TokenStandard: types.QsrTokenStandard, Amount: big.NewInt(200 * g.Zexp)}, nil, mock.SkipVmChanges)
+					z.InsertNewMomentum()
+					z.InsertNewMomentum()
+					for k := int64(1); k <= 2; k++ {
+						b := z.InsertSendBlock(&nom.AccountBlock{Address: g.User1.Address, ToAddress: fresh.Address,
+							TokenStandard: types.ZnnTokenStandard, Amount: big.NewInt(k * g.Zexp)}, nil, mock.SkipVmChanges)
+						freshSends = append(freshSends, b.Header())
+					}
+				}()
+			}
+			if r%6 == 4 && len(freshSends) == 2 {
+				func() {
+					defer func() {
+						if x := recover(); x != nil {
+							c.Hit("fresh-receive-failed")
+						}
+					}()
+					for _, h := range freshSends {
+						z.InsertReceiveBlock(h, nil, nil, mock.SkipVmChanges)
+					}
+					freshSends = nil
+					c.Hit("fresh-account-two-blocks-in-one-momentum")
 				}()
 			}
 			// change the pillar weights: a user delegates; the mock's own producer path includes the send and lets the
